@@ -1,4 +1,5 @@
 import Copia.Lemmas.GenEqLoopsO
+import Copia.Lemmas.GenEqLoopsG
 /-!
 # C01 / C16 — `Delta::push_copy / push_literal / push_literal_byte` in the SOURCE are the model's operations
 
@@ -21,5 +22,14 @@ theorem source_push_literal_is_model (rops : List Op) (data : List Nat) :
 theorem source_push_literal_byte_is_model (rops : List Op) (b : Nat) :
     Copia.Gen.Loops.pushLiteralByteFwd (finish rops) b = finish (pushLiteralByte rops b) :=
   (Copia.GenEqLoops.pushLiteralByte_fwd rops b).symm
+
+/-- `Signature::generate`'s block list (both its rayon path for inputs above 64 KiB and its sequential path:
+`chunks(bs).enumerate().map(|(i, chunk)| BlockSignature::compute(i as u32, chunk))`, rayon's `collect` keeping the order)
+and `BlockSignature::compute`, TRANSLATED on this run, give the model's block list — for inputs of fewer than 2^32 bytes,
+so that no block index is truncated by the `as u32` -/
+theorem source_signature_blocks_is_model {D : Type} (H : List Nat → D) (bs : Nat) (data : List Nat)
+    (hn : data.length ≤ 4294967296) :
+    Copia.Gen.Loops.generateBlocks H bs data = (signature H bs data).blocks :=
+  Copia.GenEqLoops.generateBlocks_eq H bs data hn
 
 end Copia.C01
